@@ -133,14 +133,20 @@ pub struct ExBytes(bytes::Bytes);
 #[verifier::external_body]
 pub struct ExBytesMut(bytes::BytesMut);
 
+/// A-mem: an object that exists in memory occupies at most a quarter of the address space (on a 64-bit platform no object
+/// exceeds 2^56 bytes; the bound is stated relative to `usize::MAX` because Verus leaves the word size open), so sums of a few
+/// in-memory lengths do not overflow a usize.  Stated only on EXEC functions that return or expose the length of a live
+/// object, never as a property of spec-level sequences.
+pub open spec fn mem_ok(n: int) -> bool { n <= (usize::MAX / 4) as int }
+
 pub assume_specification[ bytes::Bytes::len ](b: &bytes::Bytes) -> (r: usize)
-    ensures r == buf_seq(b).len();
+    ensures r == buf_seq(b).len(), mem_ok(r as int);
 
 pub assume_specification[ bytes::Bytes::is_empty ](b: &bytes::Bytes) -> (r: bool)
     ensures r == (buf_seq(b).len() == 0);
 
 pub assume_specification[ <bytes::Bytes as core::ops::Deref>::deref ](b: &bytes::Bytes) -> (r: &[u8])
-    ensures r@ == buf_seq(b);
+    ensures r@ == buf_seq(b), mem_ok(r@.len() as int);
 
 /// bytes 1.x: `split_to(at)` returns the first `at` bytes and keeps the rest; panics when `at > len`
 pub assume_specification[ bytes::Bytes::split_to ](b: &mut bytes::Bytes, at: usize) -> (r: bytes::Bytes)
@@ -157,7 +163,7 @@ pub trait ExBuf {
     type ExternalTraitSpecificationFor: bytes::Buf;
 
     fn remaining(&self) -> (r: usize)
-        ensures r == buf_seq(self).len();
+        ensures r == buf_seq(self).len(), mem_ok(r as int);
 
     fn advance(&mut self, cnt: usize)
         requires cnt <= buf_seq(old(self)).len(),
@@ -207,6 +213,12 @@ pub assume_specification<T: bytes::Buf>[ <bytes::BytesMut as bytes::BufMut>::put
 
 pub assume_specification[ bytes::BytesMut::new ]() -> (r: bytes::BytesMut)
     ensures buf_seq(&r) == Seq::<u8>::empty();
+
+pub assume_specification[ bytes::BytesMut::with_capacity ](capacity: usize) -> (r: bytes::BytesMut)
+    ensures buf_seq(&r) == Seq::<u8>::empty();
+
+pub assume_specification[ bytes::BytesMut::extend_from_slice ](b: &mut bytes::BytesMut, extend: &[u8])
+    ensures buf_seq(final(b)) == buf_seq(old(b)) + extend@;
 
 pub assume_specification[ bytes::BytesMut::freeze ](b: bytes::BytesMut) -> (r: bytes::Bytes)
     ensures buf_seq(&r) == buf_seq(&b);
@@ -286,10 +298,10 @@ pub assume_specification<'a, B: ?Sized + ToOwned>[ <std::borrow::Cow<'a, B>>::in
     ensures r == cow_owned(c);
 
 pub assume_specification[ String::len ](s: &String) -> (r: usize)
-    ensures r == utf8(s@).len();
+    ensures r == utf8(s@).len(), mem_ok(r as int);
 
 pub assume_specification[ String::as_bytes ](s: &String) -> (r: &[u8])
-    ensures r@ == utf8(s@);
+    ensures r@ == utf8(s@), mem_ok(r@.len() as int);
 
 #[verifier::external_type_specification]
 #[verifier::external_body]
